@@ -150,6 +150,122 @@ Proof.
       exists es2; eexists; split; [assumption | reflexivity] ].
 Qed.
 
+(* ---- WriteCollection / ReadCollection ---- *)
+
+(* iter_until (binary trip count) is plain iteration with early exit *)
+Fixpoint iter_nat {S R : Type} (n : nat) (f : S -> S + R) (s : S) : S + R :=
+  match n with
+  | O => inl s
+  | Datatypes.S m => match f s with inl s' => iter_nat m f s' | inr r => inr r end
+  end.
+
+Lemma iter_nat_add : forall {S R : Type} (f : S -> S + R) a b s,
+  iter_nat (a + b) f s = match iter_nat a f s with inl s' => iter_nat b f s' | inr r => inr r end.
+Proof.
+  intros S R f. induction a as [|a IH]; intros b s; [reflexivity|]. cbn [plus iter_nat].
+  destruct (f s); [apply IH | reflexivity].
+Qed.
+
+Lemma iter_until_nat : forall {S R : Type} (f : S -> S + R) p s, iter_until p f s = iter_nat (Pos.to_nat p) f s.
+Proof.
+  intros S R f. induction p as [q IH|q IH|]; intros s; cbn [iter_until].
+  - rewrite Pos2Nat.inj_xI. cbn [iter_nat]. destruct (f s) as [s0|r]; [|reflexivity].
+    replace (2 * Pos.to_nat q)%nat with (Pos.to_nat q + Pos.to_nat q)%nat by lia.
+    rewrite iter_nat_add, <- IH. destruct (iter_until q f s0); [apply IH | reflexivity].
+  - rewrite Pos2Nat.inj_xO. replace (2 * Pos.to_nat q)%nat with (Pos.to_nat q + Pos.to_nat q)%nat by lia.
+    rewrite iter_nat_add, <- IH. destruct (iter_until q f s); [apply IH | reflexivity].
+  - rewrite Pos2Nat.inj_1. cbn [iter_nat]. destruct (f s); reflexivity.
+Qed.
+
+(* the read callback (ReadBytes of k bytes) walks over the elements, whatever the chunking *)
+Lemma coll_body_iter : forall k elems rest es acc c, Forall (fun e => length e = k) elems -> fault_free es ->
+  exists es' c', fault_free es' /\
+    iter_nat (length elems) (coll_body k) (mkR (concat elems ++ rest) es, acc, c) = inl (mkR rest es', rev elems ++ acc, c').
+Proof.
+  intros k. induction elems as [|e elems IH]; intros rest es acc c Hk Hff.
+  - exists es, c. split; [assumption | reflexivity].
+  - inversion Hk as [|? ? He Hks]; subst. cbn [length iter_nat concat]. unfold coll_body at 1.
+    rewrite <- app_assoc.
+    destruct (read_bytes_roundtrip e (concat elems ++ rest) es Hff) as (es1 & c1 & Hff1 & ->).
+    destruct (IH rest es1 (e :: acc) (c + 1 + c1)%N Hks Hff1) as (es2 & c2 & Hff2 & ->).
+    exists es2, c2. split; [assumption|]. cbn [rev]. now rewrite <- app_assoc.
+Qed.
+
+Definition at_end (b : bb) : Prop := bpos b = length (bbuf b).
+
+Lemma bb_write_end : forall b p, at_end b -> bb_write b p = mkB (bbuf b ++ p) (length (bbuf b) + length p).
+Proof.
+  intros [buf pos] p H. unfold at_end in H. cbn [bbuf bpos] in H. subst pos. unfold bb_write. cbn [bbuf bpos].
+  rewrite Nat.sub_diag. cbn [repeat]. rewrite app_nil_r, firstn_all, skipn_all2 by lia. now rewrite app_nil_r.
+Qed.
+
+Lemma fold_write_end : forall elems b, at_end b ->
+  fold_left bb_write elems b = mkB (bbuf b ++ concat elems) (length (bbuf b) + length (concat elems)).
+Proof.
+  induction elems as [|e elems IH]; intros b H; cbn [fold_left concat].
+  - rewrite app_nil_r. cbn [length]. rewrite Nat.add_0_r. destruct b as [buf pos]. unfold at_end in H. cbn in *. now subst.
+  - rewrite bb_write_end by assumption. rewrite IH by (unfold at_end; cbn [bbuf bpos]; now rewrite app_length).
+    cbn [bbuf]. rewrite <- app_assoc, !app_length. f_equal. lia.
+Qed.
+
+(* WriteCollection at the end of a buffer (the placeholder is written, the elements follow, the count is patched in):
+   exactly prefix(count) ++ elements is appended, also for the empty collection, and the position is the end again *)
+Lemma write_collection_end : forall l elems count b b', at_end b -> (0 <= count <= MaxInt64)%Z ->
+  wop_run (WCollection l elems count) b = Ok b' ->
+  exists p, slice_length_bytes l count = Ok p /\ b' = mkB (bbuf b ++ p ++ concat elems) (length (bbuf b ++ p ++ concat elems)).
+Proof.
+  intros l elems count b b' Hend Hc H. cbn [wop_run] in H.
+  destruct (slice_length_bytes l 0) as [z| |] eqn:Hz; try discriminate.
+  destruct (slice_length_bytes l count) as [p| |] eqn:Hp; try discriminate.
+  destruct (slice_length_bytes_ok l 0 z ltac:(lia) ltac:(unfold MaxInt64; lia) Hz) as (-> & _ & _).
+  destruct (slice_length_bytes_ok l count p ltac:(lia) ltac:(lia) Hp) as (-> & _ & _).
+  exists (le_enc (lpt_size l) (Z.to_N count)). split; [reflexivity|].
+  pose proof (le_enc_length (lpt_size l) (Z.to_N 0)) as Lz. pose proof (le_enc_length (lpt_size l) (Z.to_N count)) as Lp.
+  set (z := le_enc (lpt_size l) (Z.to_N 0)) in *. set (p := le_enc (lpt_size l) (Z.to_N count)) in *.
+  cbv zeta in H. rewrite (bb_write_end b z Hend) in H.
+  rewrite fold_write_end in H by (unfold at_end; cbn [bbuf bpos]; now rewrite app_length).
+  cbn [bbuf bpos] in H. inversion H; subst b'; clear H.
+  unfold bb_goto, bb_write. cbn [bbuf bpos]. unfold at_end in Hend. rewrite Hend.
+  set (pre := bbuf b) in *. set (body := concat elems) in *.
+  replace (length pre - length ((pre ++ z) ++ body))%nat with 0%nat by (rewrite !app_length; lia).
+  cbn [repeat]. rewrite app_nil_r, <- app_assoc.
+  rewrite firstn_app, Nat.sub_diag, firstn_all, firstn_O, app_nil_r.
+  rewrite skipn_app. rewrite skipn_all2 by lia. cbn [app].
+  replace (length pre + length p - length pre)%nat with (length z) by lia.
+  rewrite skipn_app, skipn_all, Nat.sub_diag. cbn [app skipn].
+  f_equal. rewrite !app_length. lia.
+Qed.
+
+(* ... and ReadCollection (elements of k bytes read with ReadBytes) gives the elements back under every fault-free
+   chunking, consuming exactly what was written *)
+Theorem collection_roundtrip : forall l k elems b b' rest es,
+  at_end b -> Forall (fun e => length e = k) elems -> (Z.of_nat (length elems) <= MaxInt64)%Z ->
+  wop_run (WCollection l elems (Z.of_nat (length elems))) b = Ok b' -> fault_free es ->
+  exists w, b' = mkB (bbuf b ++ w) (length (bbuf b ++ w)) /\
+    exists es' c, fault_free es' /\ read_collection l k (mkR (w ++ rest) es) = (Ok (SVList elems), mkR rest es', c).
+Proof.
+  intros l k elems b b' rest es Hend Hk Hmax Hw Hff.
+  assert (Hrange : (0 <= Z.of_nat (length elems) <= MaxInt64)%Z) by lia.
+  destruct (write_collection_end l elems (Z.of_nat (length elems)) b b' Hend Hrange Hw) as (p & Hp & ->).
+  exists (p ++ concat elems). split; [reflexivity|].
+  destruct (slice_length_bytes_ok l _ p (Nat2Z.is_nonneg _) Hmax Hp) as (-> & Hlt & Hl).
+  assert (Hlen : length (le_enc (lpt_size l) (Z.to_N (Z.of_nat (length elems)))) = lpt_size l) by apply le_enc_length.
+  unfold read_collection, read_fixed_size. rewrite <- app_assoc.
+  destruct (read_fixed_roundtrip (le_enc (lpt_size l) (Z.to_N (Z.of_nat (length elems)))) (concat elems ++ rest) es Hff)
+    as (es1 & Hff1 & H).
+  rewrite Hlen in H.
+  assert (Hfit : (Z.to_N MaxInt64 <? Z.to_N (Z.of_nat (length elems)))%N = false).
+  { apply N.ltb_ge. unfold MaxInt64 in *. lia. }
+  destruct l; try congruence; rewrite H, le_dec_enc by exact Hlt; cbv zeta; rewrite Hfit.
+  all: destruct (Z.to_N (Z.of_nat (length elems))) as [|q] eqn:Eq;
+    [ assert (elems = []) by (destruct elems; [reflexivity | cbn [length] in Eq; lia]); subst elems; cbn [concat app];
+      exists es1; eexists; split; [assumption | reflexivity]
+    | rewrite iter_until_nat;
+      replace (Pos.to_nat q) with (length elems) by lia;
+      destruct (coll_body_iter k elems rest es1 [] (N.of_nat (lpt_size _)) Hk Hff1) as (es2 & c2 & Hff2 & ->);
+      exists es2, c2; split; [assumption|]; now rewrite app_nil_r, rev_involutive ].
+Qed.
+
 (* ---- the pinned ReadBytes (before 93eaa3d / 251eda6): make first, one Read call ---- *)
 Definition read_once (want : nat) (r : reader) : list N :=
   match revs r with e :: _ => firstn (chunk_of e want) (rdata r) | [] => firstn want (rdata r) end.
